@@ -332,6 +332,72 @@ def degenerate_octets(b64text: str) -> list[tuple[str, str]]:
             ("all-zero", enc(bytes(len(raw)))), ("all-ff", enc(b"\xff" * len(raw)))]
 
 
+def degenerate_signature_fields(s0: dict[str, Any]) -> list[tuple[str, dict[str, Any]]]:
+    """(tag, field updates) for the signature spec `s0`: every signed field (and the attribution) at its DEGENERATE values -- empty,
+    white space, a prefix / suffix / single character of the honest value, zero, the wire maximum, negative -- tagged `tamper:` (must
+    be refused) or, for the one field that is not signed (Signature.ttl), `control:` (must not matter)."""
+    out: list[tuple[str, dict[str, Any]]] = []
+    for nm, v in degenerate_texts(s0["name"]) + [("two-dots", ".."), ("single-letter", "x"), ("dot-space-dot", ". .")]:
+        out.append((f"tamper:degenerate-sig-signers-name:{nm}", {"name": v}))
+    for nm, v in degenerate_ints(s0["ottl"], 2**32 - 1):
+        out.append((f"tamper:degenerate-sig-original-ttl:{nm}", {"ottl": v}))
+    for nm, v in degenerate_ints(s0["labels"], 255):
+        out.append((f"tamper:degenerate-sig-labels:{nm}", {"labels": v}))
+    for nm, v in degenerate_ints(s0["tag"], 65535):
+        out.append((f"tamper:degenerate-sig-key-tag:{nm}", {"tag": v}))
+    for fld, tagname in (("inc", "inception"), ("exp", "expiration")):
+        for nm, v in degenerate_ints(s0[fld] // SEC, 2**32 - 1):
+            out.append((f"tamper:degenerate-sig-{tagname}:{nm}", {fld: v * SEC}))
+    out.append(("tamper:degenerate-sig-times:swapped", {"inc": s0["exp"], "exp": s0["inc"]}))
+    out.append(("tamper:degenerate-sig-times:both-inception", {"exp": s0["inc"]}))
+    out.append(("tamper:degenerate-sig-times:both-zero", {"inc": 0, "exp": 0}))
+    for alg in (1, 3, 6, 7, 12, 15, 16):  # the other members of the algorithm registry the data model knows (lowest, highest, ...)
+        out.append((f"tamper:degenerate-sig-algorithm:{alg}", {"alg": alg}))
+    for nm, v in degenerate_ints(s0["ttl"], 2**32 - 1):
+        if nm in ("zero", "max", "prefix"):
+            out.append((f"control:degenerate-sig-ttl:{nm}", {"ttl": v}))
+    honest_raw = base64.b64decode(s0["sig"])
+    h2 = len(honest_raw) // 2
+    widened = [("leading-zero-octet", base64.b64encode(b"\x00" + honest_raw).decode()),
+               ("zero-padded-halves", base64.b64encode(b"\x00" + honest_raw[:h2] + b"\x00" + honest_raw[h2:]).decode())]
+    for nm, v in degenerate_octets(s0["sig"]) + widened:
+        raw2 = base64.b64decode(v)
+        same_numbers = bool(raw2) and (int.from_bytes(raw2[: len(raw2) // 2], "big"), int.from_bytes(raw2[len(raw2) // 2 :], "big")) == (int.from_bytes(honest_raw[:h2], "big"), int.from_bytes(honest_raw[h2:], "big"))
+        if s0["alg"] in (13, 14) and len(raw2) != len(honest_raw) and same_numbers:
+            # other OCTETS that a reader splitting the field in the middle turns into the same two numbers (zero octets added in front of
+            # each half; a leading zero octet of r dropped): not the fixed-width r | s of RFC 6605, an independent validator refuses it
+            out.append((f"tamper:ecdsa-sig-not-fixed-width:{nm}", {"sig": v}))
+        else:
+            out.append((f"tamper:degenerate-sig-octets:{nm}", {"sig": v}))
+    for nm, v in degenerate_texts(s0["id"]):
+        out.append((f"tamper:degenerate-sig-identifier:{nm}", {"id": v}))
+    return out
+
+
+def degenerate_key_fields(k0: dict[str, Any]) -> list[tuple[str, dict[str, Any]]]:
+    """(tag, field updates) for the key spec `k0`: every field of the key at its degenerate values (see degenerate_signature_fields);
+    Key.ttl and Key.key_tag are not part of the signed RDATA: controls."""
+    out: list[tuple[str, dict[str, Any]]] = []
+    for nm, v in degenerate_octets(k0["pk"]):
+        out.append((f"tamper:degenerate-key-octets:{nm}", {"pk": v}))
+    for nm, v in degenerate_ints(k0["flags"], 65535):
+        out.append((f"tamper:degenerate-key-flags:{nm}", {"flags": v}))
+    for nm, v in degenerate_ints(k0["protocol"], 255) + [("beyond", 256)]:
+        out.append((f"tamper:degenerate-key-protocol:{nm}", {"protocol": v}))
+    for alg in (1, 3, 5, 6, 7, 12, 15, 16):
+        if alg != k0["alg"]:
+            out.append((f"tamper:degenerate-key-algorithm:{alg}", {"alg": alg}))
+    for nm, v in degenerate_texts(k0["id"]):
+        out.append((f"tamper:degenerate-key-identifier:{nm}", {"id": v}))
+    for nm, v in degenerate_ints(k0["ttl"], 2**32 - 1):
+        if nm in ("zero", "max", "prefix"):
+            out.append((f"control:degenerate-key-ttl:{nm}", {"ttl": v}))  # Key.ttl is not signed: the RRSIG's original TTL is
+    for nm, v in degenerate_ints(k0["tag"], 65535):
+        if nm in ("zero", "max", "prefix"):
+            out.append((f"control:degenerate-key-tag-field-not-in-rdata:{nm}", {"tag": v}))
+    return out
+
+
 def variants(r: Any, case: dict[str, Any], tks: list[Any], tier: str, heavy: bool) -> list[tuple[str, dict[str, Any]]]:
     """(tag, case).  tag prefix: honest / control (must be accepted), tamper (must be rejected)."""
     import keys as fx
@@ -428,67 +494,15 @@ def variants(r: Any, case: dict[str, Any], tks: list[Any], tier: str, heavy: boo
     out.append(("control:sig-subsecond-inception", with_sig(inc=s0["inc"] + 999_999)))
     out.append(("control:sig-subsecond-expiration", with_sig(exp=s0["exp"] + 1)))
 
-    # --- DEGENERATE values of every signed field of the signature (not a bit flip, not +-1): each must be refused -- the signed
-    # octets differ, or no RRSIG with such a field exists -- and an unsigned field (Signature.ttl) must not matter
-    for nm, v in degenerate_texts(s0["name"]) + [("two-dots", ".."), ("single-letter", "x"), ("dot-space-dot", ". .")]:
-        out.append((f"tamper:degenerate-sig-signers-name:{nm}", with_sig(name=v)))
-    for nm, v in degenerate_ints(s0["ottl"], 2**32 - 1):
-        out.append((f"tamper:degenerate-sig-original-ttl:{nm}", with_sig(ottl=v)))
-    for nm, v in degenerate_ints(s0["labels"], 255):
-        out.append((f"tamper:degenerate-sig-labels:{nm}", with_sig(labels=v)))
-    for nm, v in degenerate_ints(s0["tag"], 65535):
-        out.append((f"tamper:degenerate-sig-key-tag:{nm}", with_sig(tag=v)))
-    for fld, tagname in (("inc", "inception"), ("exp", "expiration")):
-        for nm, v in degenerate_ints(s0[fld] // SEC, 2**32 - 1):
-            out.append((f"tamper:degenerate-sig-{tagname}:{nm}", with_sig(**{fld: v * SEC})))
-    out.append(("tamper:degenerate-sig-times:swapped", with_sig(inc=s0["exp"], exp=s0["inc"])))
-    out.append(("tamper:degenerate-sig-times:both-inception", with_sig(exp=s0["inc"])))
-    out.append(("tamper:degenerate-sig-times:both-zero", with_sig(inc=0, exp=0)))
-    for alg in (1, 3, 6, 7, 12, 15, 16):  # the other members of the algorithm registry the data model knows (lowest, highest, ...)
-        out.append((f"tamper:degenerate-sig-algorithm:{alg}", with_sig(alg=alg)))
-    for nm, v in degenerate_ints(s0["ttl"], 2**32 - 1):
-        if nm in ("zero", "max", "prefix"):
-            out.append((f"control:degenerate-sig-ttl:{nm}", with_sig(ttl=v)))
-    honest_raw = base64.b64decode(s0["sig"])
-    h2 = len(honest_raw) // 2
-    widened = [("leading-zero-octet", base64.b64encode(b"\x00" + honest_raw).decode()),
-               ("zero-padded-halves", base64.b64encode(b"\x00" + honest_raw[:h2] + b"\x00" + honest_raw[h2:]).decode())]
-    for nm, v in degenerate_octets(s0["sig"]) + widened:
-        raw2 = base64.b64decode(v)
-        same_numbers = bool(raw2) and (int.from_bytes(raw2[: len(raw2) // 2], "big"), int.from_bytes(raw2[len(raw2) // 2 :], "big")) == (int.from_bytes(honest_raw[:h2], "big"), int.from_bytes(honest_raw[h2:], "big"))
-        if s0["alg"] in (13, 14) and len(raw2) != len(honest_raw) and same_numbers:
-            # other OCTETS that a reader splitting the field in the middle turns into the same two numbers (zero octets added in front of
-            # each half; a leading zero octet of r dropped): not the fixed-width r | s of RFC 6605, an independent validator refuses it
-            out.append((f"tamper:ecdsa-sig-not-fixed-width:{nm}", with_sig(sig=v)))
-        else:
-            out.append((f"tamper:degenerate-sig-octets:{nm}", with_sig(sig=v)))
-    for nm, v in degenerate_texts(s0["id"]):
-        out.append((f"tamper:degenerate-sig-identifier:{nm}", with_sig(id=v)))
-
-    # --- DEGENERATE values of every field of the key
-    def with_key(**kw: Any) -> dict[str, Any]:
+    # --- DEGENERATE values of every signed field of the signature and of every field of the key (not a bit flip, not +-1): each
+    # must be refused -- the signed octets differ, or no RRSIG / DNSKEY with such a field exists -- and a field that is not signed
+    # (Signature.ttl, Key.ttl, Key.key_tag) must not matter
+    for dtag, kw in degenerate_signature_fields(s0):
+        out.append((dtag, with_sig(**kw)))
+    for dtag, kw in degenerate_key_fields(case["keys"][t]):
         cc = clone(case)
         cc["keys"][t].update(kw)
-        return cc
-
-    k0 = case["keys"][t]
-    for nm, v in degenerate_octets(k0["pk"]):
-        out.append((f"tamper:degenerate-key-octets:{nm}", with_key(pk=v)))
-    for nm, v in degenerate_ints(k0["flags"], 65535):
-        out.append((f"tamper:degenerate-key-flags:{nm}", with_key(flags=v)))
-    for nm, v in degenerate_ints(k0["protocol"], 255) + [("beyond", 256)]:
-        out.append((f"tamper:degenerate-key-protocol:{nm}", with_key(protocol=v)))
-    for alg in (1, 3, 5, 6, 7, 12, 15, 16):
-        if alg != k0["alg"]:
-            out.append((f"tamper:degenerate-key-algorithm:{alg}", with_key(alg=alg)))
-    for nm, v in degenerate_texts(k0["id"]):
-        out.append((f"tamper:degenerate-key-identifier:{nm}", with_key(id=v)))
-    for nm, v in degenerate_ints(k0["ttl"], 2**32 - 1):
-        if nm in ("zero", "max", "prefix"):
-            out.append((f"control:degenerate-key-ttl:{nm}", with_key(ttl=v)))  # Key.ttl is not signed: the RRSIG's original TTL is
-    for nm, v in degenerate_ints(k0["tag"], 65535):
-        if nm in ("zero", "max", "prefix"):
-            out.append((f"control:degenerate-key-tag-field-not-in-rdata:{nm}", with_key(tag=v)))
+        out.append((dtag, cc))
 
     # --- signature octets
     sig_bits = len(base64.b64decode(s0["sig"])) * 8
